@@ -41,6 +41,11 @@ type FeeVerdict struct {
 	// if the implementation accepts, Credits/Total/Remaining still say what exactness demands.
 	DontCare       bool
 	DontCareReason string
+	// AmbiguousValue is true when an entry's amount is written in a spelling that reads as two
+	// different numbers in base 10 and in Go's base-0 syntax ("0040" is 40 or octal 32): the
+	// statement does not say which is "the stated amount", so exactness is only demanded in the
+	// form "what was credited is what was deducted".
+	AmbiguousValue bool
 	Credits        []Credit // one per entry with a non-zero fee, in list order
 	Total          *big.Int
 	Remaining      *big.Int
@@ -98,6 +103,9 @@ func ModelFees(A *big.Int, fees []Fee) FeeVerdict {
 			x, ok, canonical := ParseFixed(f.Fixed)
 			if !canonical {
 				dontCare("entry %d: non-canonical integer spelling %q", i, f.Fixed)
+				if y, good := new(big.Int).SetString(f.Fixed, 0); x != nil && (!good || y.Cmp(x) != 0) {
+					v.AmbiguousValue = true
+				}
 			}
 			if !ok {
 				if canonical {
